@@ -55,6 +55,16 @@ def scenarios(ob):
             if not job.ready():
                 out.append('shutdown=%s, %d worker(s) left: job lost 50 s ago (timeout 10 s) is still unresolved '
                            'after the tick -- the caller waits forever' % (shutdown, len(workers)))
+    elif 'registries' in ob or 'frame.Pool' in ob:
+        dead = FakeWorker(99, exitcode=155)
+        p = mkpool([FakeWorker(4242), dead])
+        before = (p._on_ready_counters, p._poolctrl, p._pool, p._cache)
+        p._join_exited_workers()
+        after = (p._on_ready_counters, p._poolctrl, p._pool, p._cache)
+        for name, a, b in zip(('_on_ready_counters', '_poolctrl', '_pool', '_cache'), before, after):
+            if a is not b:
+                out.append('reaping worker 99 replaced Pool.%s by a new object: the result handler / supervisor keep '
+                           'using the old one (now %r, pool has %r)' % (name, a, b))
     elif 'reaped_worker_is_marked' in ob:
         dead = FakeWorker(4242, exitcode=-9)
         p = mkpool([FakeWorker(7), dead])
